@@ -237,7 +237,7 @@ def run(F, S, R, tier):
                 continue
             K.mustcall(R, "mustcall/refusal/%s-err" % nm, rec, [VERIFY + r"insert_failure_ext$"], S, start=ea[0][1]["Err"], ends=loop_heads | set(rec.return_blocks()), what="failed block is recorded as verified=false")
             st = ea[0][1]["Err"]
-            sets = {i for i, blk in enumerate(rec.blocks) for s_ in blk["s"] if rec.local_names().get(s_[0][0]) == "found_error" and not s_[0][1]
+            sets = {i for i, blk in enumerate(rec.blocks) for s_ in blk["s"] if (rec.rec.get("locals") or [])[s_[0][0]:s_[0][0] + 1] == ["core::option::Option<ckb_error::Error>"] and s_[0][0] in rec.local_names() and not s_[0][1]
                     and K.src_match(rec.rvalue_sources(s_[1], set()), [r"agg:core::option::Option::Some"])}
             reach, prev = K.reach_with(rec, st, avoid=sets)
             esc = reach & (loop_heads | set(rec.return_blocks()))
